@@ -116,7 +116,9 @@ OnDtor(e) ==
      ELSE LET r == CHOOSE r \in m : TRUE
           IN Result([st EXCEPT !.con = @ \ {r}, !.des = (e.id :> 1) @@ @,
                                !.foreign = IF st.cur.op \in Creating /\ r.c # st.cur.c THEN @ + 1 ELSE @],
-                    {})
+                    \* the element is destroyed while it still is the object that was constructed, i.e.
+                    \* before its storage is given back
+                    Chk(e.intact, "C20", "DestroyedBeforeMemoryReturned", <<e.id, e.b, e.off, st.cur.op>>))
 
 OnThrowpt(e) == Result([st EXCEPT !.thr = Append(@, e.id)], {})
 
